@@ -625,6 +625,7 @@ class Structural:
             c.cache[key] = fresh_array_fn(name, len(shape), dtype)
             c.assumed.append(assumed or name)
         get = c.cache[key]
+        c.cache.setdefault('opaque-calls', []).append((name, list(key_args), shape))
         if all(isinstance(s, int) for s in shape):
             a = np.empty(shape, dtype=object)
             for ix in np.ndindex(*shape):
